@@ -66,16 +66,16 @@ PROPS["C10"] = dict(
                  "a contact dropped as bad and named again by hearsay starts a new history as questionable (DESIGN.md F12)"],
     outside=["that handler.rs calls remote_request only for known nodes; load_contacts wiring; interleavings across contacts"],
     harnesses=[
-        H("c10_history_k4", "node", Q, 900,
-          "every history of 4 events per contact, each event symbolic in {answer, hearsay, query received, query sent, wait d} "
+        H("c10_history_k5", "node", Q, 1200,
+          "every history of 5 events per contact, each event symbolic in {answer, hearsay, query received, query sent, wait d} "
           "with d symbolic in [0, 68 min] at 1 ns resolution; first contact as responder or by hearsay; clock start symbolic",
-          "k = 4 events (shorter histories included as zero waits); unwind 21 (20-byte id memcmp)",
+          "k = 5 events (shorter histories included as zero waits); unwind 21 (20-byte id memcmp)",
           ["Node::as_good", "Node::as_questionable", "Node::update", "Node::local_request", "Node::remote_request",
            "Node::status", "Node::is_pingable"]),
         H("c10_fifteen_minute_boundary", "node", Q, 300,
           "time since last answer / last received query symbolic in [14 min, 16 min] at 1 ns resolution",
           "one contact, one wait", ["Node::status", "Node::remote_request"]),
-        H("c10_history_k5", "node", T, 3000, "as k4 with 5 events", "k = 5; unwind 21",
+        H("c10_history_k6", "node", T, 5000, "as k5 with 6 events", "k = 6; unwind 21",
           ["Node::update", "Node::local_request", "Node::remote_request", "Node::status"]),
     ],
 )
@@ -148,15 +148,17 @@ PROPS["C06"] = dict(
     assumptions=["SHA-1 is collision-free on the queried inputs", "fresh secrets differ from earlier ones"],
     outside=["that handler.rs passes addr.ip() and gates add_item on the result (F7)", "more than 2 interleaved events between issue and check"],
     harnesses=[
-        _c06("c06_lifetime_k1_v4", Q, 1200, 1, "IPv4", 0),
+        _c06("c06_lifetime_k3_v4", Q, 1500, 3, "IPv4", 0),
         _c06("c06_lifetime_k1_v6", Q, 1200, 1, "IPv6", 0),
         _c06("c06_other_ip_k0_v4", Q, 1200, 0, "IPv4", 1),
+        _c06("c06_other_ip_k0_v6", Q, 1200, 0, "IPv6", 1),
         _c06("c06_never_issued_k0_v4", Q, 1200, 0, "IPv4", 2),
         _c06("c06_foreign_store_k0_v4", Q, 1200, 0, "IPv4", 3),
         H("c06_token_length_gate", "token", Q, 300, "40 symbolic bytes; prefixes of length 0, 19, 20, 21, 40",
           "lengths enumerated concretely (F15)", ["Token::new"]),
         _c06("c06_lifetime_k2_v4", T, 3000, 2, "IPv4", 0),
         _c06("c06_lifetime_k2_v6", T, 3000, 2, "IPv6", 0),
+        _c06("c06_lifetime_k1_v4", T, 1200, 1, "IPv4", 0),
         _c06("c06_other_ip_k1_v6", T, 3000, 1, "IPv6", 1),
         _c06("c06_never_issued_k1_v6", T, 3000, 1, "IPv6", 2),
         _c06("c06_foreign_store_k1_v6", T, 3000, 1, "IPv6", 3),
@@ -219,6 +221,9 @@ PROPS["C13"] = dict(
         H("c13_nodes_v6_lengths", "compact", Q, 600, "77 symbolic bytes; blob lengths 0,26,37,38,39,75,76,77", "lengths enumerated", ["compact::nodes_v6::deserialize", "decode_socket_addr"]),
         H("c13_values_element_lengths", "compact", Q, 600, "two elements of symbolic bytes; element lengths 0,5,6,7,17,18,19", "lists <= 2 elements", ["compact::values::deserialize", "decode_socket_addr"]),
         H("c13_socket_addr_roundtrip", "compact", Q, 300, "family, 16 address bytes, port: symbolic", "none", ["encode_socket_addr", "decode_socket_addr"]),
+        H("c13_raw_message_cross_check", "message", Q, 600,
+          "message type tag (q/r/e), method tag (4 methods or absent), argument variant (4 kinds or absent), presence of r and e parts: all symbolic; ids, token, transaction id symbolic",
+          "one TryFrom<RawMessage>; unwind 24", ["TryFrom<RawMessage> for Message (q/a cross-check, missing-part checks)"]),
         H("c13_codec_roundtrip_native", "message", Q, 60,
           "(native only) pseudo-random messages of every kind (t 0..32 bytes, want, explicit/implied port, token 0..23 bytes, 0..5 values of mixed "
           "families, 0..8 nodes per family, error code/text): real encoder == reference BEP3/5/32 encoder, decode(encode(m)) == m, and decoding "
@@ -271,7 +276,7 @@ PROPS["C14"] = dict(
           "(native only) pseudo-random ping / announce_peer / response / error messages: reference encoder == real encoder, pre-check accepts, real decoder gives the message back",
           "sampling - validates that the pre-check loses no valid message and ties the reference encoder to the real codec; does not decide the property",
           ["bencode::check_structure", "Message::encode", "Message::decode"], role="native-validation"),
-        H("c14_length_bomb_20_digits", "bencode", T, 3600, "<20 symbolic digits>:xxxx", "20 digits: every magnitude up to 10^20 > 2^64", ["bencode::check_structure"]),
+        H("c14_length_bomb_20_digits", "bencode", Q, 1200, "<20 symbolic digits>:xxxx", "20 digits: every magnitude up to 10^20 > 2^64", ["bencode::check_structure"]),
         H("c14_length_bomb_21_digits", "bencode", T, 3600, "<21 symbolic digits>:", "21 digits", ["bencode::check_structure"]),
         H("c14_precheck_any_12_bytes", "bencode", T, 3000, "every byte string of 12 bytes", "unwind 14", ["bencode::check_structure"]),
         # piece B: btdht's own decoding code on hostile sizes (shared with C13)
@@ -290,6 +295,8 @@ PROPS["C12"] = dict(
              "node lists longer than 1 name; names that make a bucket split"],
     harnesses=[
         H("c12_add_nodes_fresh_name", "table", Q, 1500, "standing of the stored node symbolic; name = a fresh identity", "one add_nodes; unwind 66", ["RoutingTable::add_nodes", "RoutingTable::add_node", "Bucket::add_node", "Node::as_questionable", "Node::update"]),
+        H("c12_find_node_needs_id_and_address", "table", Q, 900, "concrete 2-bucket table with one stored questionable contact; lookups under a foreign address, a foreign id and its own handle",
+          "concrete execution inside CBMC (no symbolic input): the clause has no input besides the handles", ["RoutingTable::find_node_mut", "Bucket::pingable_nodes_mut", "Node::remote_request"]),
         H("c12_add_nodes_own_id", "table", Q, 1500, "name = the local id", "one add_nodes", ["RoutingTable::add_nodes", "leading_bit_count"]),
         H("c12_add_nodes_router_address", "table", T, 5000, "name = a router's address with a fresh id (routers = {addr})", "one add_nodes", ["RoutingTable::add_nodes"]),
         H("c12_add_nodes_existing_by_hearsay", "table", T, 2500, "name = the stored identity (arbitrary standing, incl. dropped as bad), responder = a fresh identity", "one add_nodes", ["RoutingTable::add_nodes", "Node::update"]),
